@@ -127,3 +127,43 @@ def truthy(facts, text):
 
 def falsy(facts, text):
     return ("false", text) in facts
+
+
+def _lin_of_text(t):
+    from .astutil import linear
+    return linear(ast.parse(t, mode="eval").body)
+
+
+def _lin_sub(a, b):
+    terms = dict(a[0])
+    for (t, c) in b[0]:
+        terms[t] = terms.get(t, 0) - c
+    return frozenset((t, c) for t, c in terms.items() if c), a[1] - b[1]
+
+
+def entails_nonneg(facts, goal):
+    """Do the comparison facts entail  goal >= 0  (goal: linear form from astutil.linear) by ONE fact plus a constant?
+    Integers are assumed.  Returns the fact used, or None."""
+    for f in facts:
+        if f[0] != "cmp" or f[2] not in ("<", "<=", ">", ">=", "=="):
+            continue
+        try:
+            a, b = _lin_of_text(f[1]), _lin_of_text(f[3])
+        except SyntaxError:
+            continue
+        cands = []
+        if f[2] in (">=", "=="):
+            cands.append(_lin_sub(a, b))
+        if f[2] == ">":
+            d = _lin_sub(a, b)
+            cands.append((d[0], d[1] - 1))
+        if f[2] in ("<=", "=="):
+            cands.append(_lin_sub(b, a))
+        if f[2] == "<":
+            d = _lin_sub(b, a)
+            cands.append((d[0], d[1] - 1))
+        for L in cands:           # L >= 0 is known
+            diff = _lin_sub(goal, L)
+            if not diff[0] and diff[1] >= 0:
+                return f
+    return None
